@@ -49,6 +49,14 @@ fn main() {
             if let Some(d) = arg(&args, "--describe") {
                 ctx.describe = Some(d.parse().unwrap());
             }
+            // crash recovery: --checkpoint FILE (partial reports), --resume-after HASH
+            if let Some(c) = arg(&args, "--checkpoint") {
+                ctx.checkpoint = Some(c);
+            }
+            if let Some(r) = arg(&args, "--resume-after") {
+                ctx.resume_after = Some(r.parse().unwrap());
+                ctx.resuming = true;
+            }
             // history replay: --only FILE (one decimal hash per line), --until HASH, --orderlog FILE
             if let Some(f) = arg(&args, "--only") {
                 let text = std::fs::read_to_string(f).expect("--only file");
